@@ -4,7 +4,7 @@ From PV Require Import Skeleton Lifecycle Lifecycle_proofs Loop.
 From PV Require Import Xnum Vars Labels.
 From Coq Require Import Permutation.
 From PVGen Require Import Algos Expected GenSchema GenSeed GenHyper GenMultiVar GenLabels.
-From PVBridge Require Import AlgoBridge LifeMain LoopBridge.
+From PVBridge Require Import AlgoBridge LifeMain LifeExample LoopBridge.
 
 (* optimize() seeds numpy's stream from the task before anything draws (regenerated schema), and Task.seed is an integer field *)
 Theorem C07_seeded_first : gen_optimize_schema = optimize_schema /\ gen_task_seed_is_int = true.
@@ -62,3 +62,14 @@ Print Assumptions C07_entropy_allows_difference.
 Theorem C07_no_shared_mutable_state : gen_no_shared_mutable_state = true.
 Proof. reflexivity. Qed.
 Print Assumptions C07_no_shared_mutable_state.
+
+(* non-vacuity and non-triviality: for a skeleton of the REGENERATED all_skeletons (in no known-exception list), two stores that agree on the inputs but differ in the
+   instance state, in numpy's stream and in the other entropy give the same result under an oracle that adds up everything it reads, a store that differs on the INPUT
+   gives another result (the model does not simply ignore its stores), and the caller's objects are what they were *)
+Theorem C07_hypotheses_satisfiable :
+  exists sk, In sk all_skeletons /\ ~ In (sk_name sk) known_stale /\ ~ In (sk_name sk) known_entropy /\ ~ In (sk_name sk) known_config_writes /\
+    lf_s1 LIn = lf_s2 LIn /\ lf_s1 LState <> lf_s2 LState /\ lf_s1 LG <> lf_s2 LG /\ lf_s1 LE <> lf_s2 LE /\
+    lf_run sk lf_s1 = lf_run sk lf_s2 /\ lf_run sk lf_s3 <> lf_run sk lf_s2 /\
+    run_call nat lf_sum lf_sum lf_sum lf_sum sk 2 lf_s1 LIn = lf_s1 LIn.
+Proof. exact life_hypotheses_satisfiable. Qed.
+Print Assumptions C07_hypotheses_satisfiable.
